@@ -100,7 +100,7 @@ def present(conn, pipe, chunks, orig_recv):
     return outs
 
 
-def mutations(rec, tier, rnd, full_bits):
+def mutations(rec, tier, rnd, full_bits, stride=1):
     """yield (family, description, bytes) modifications of one wire record"""
     n = len(rec)
     # single-bit flips
@@ -109,13 +109,13 @@ def mutations(rec, tier, rnd, full_bits):
         m = bytearray(rec)
         m[b // 8] ^= 1 << (b % 8)
         yield ("bit", b, bytes(m))
-    for i in range(n):
+    for i in sorted(set(list(range(0, n, stride)) + list(range(max(0, n - 40), n)))):
         m = bytearray(rec)
         m[i] ^= 0xFF
         yield ("inv", i, bytes(m))
     body = rec[5:]
     # truncations with consistent header length
-    for k in range(len(body)):
+    for k in sorted(set(list(range(0, len(body), stride)) + list(range(max(0, len(body) - 40), len(body))))):
         m = bytearray(rec[:5]) + body[:k]
         m[3], m[4] = k >> 8, k & 255
         yield ("trunc", k, bytes(m))
@@ -359,10 +359,13 @@ def record_level(cfg, tier):
             full = True
             def kind(fam, arg):
                 return "flip"
-            for fam, arg, m in mutations(raw[0], tier, rnd, full):
+            # (the pure-Python 3DES needs about a millisecond per block: long 3DES records are sampled)
+            slow = "3DES" in cfg["name"]
+            for fam, arg, m in mutations(raw[0], tier, rnd, full and not (slow and len(raw[0]) > 300), 9 if (slow and len(raw[0]) > 300) else 1):
                 try_([[kind(fam, arg), idxs[0], d]], [m], "%s:%s:rec0" % (fam, arg))
             if len(raw) > 1:
-                for fam, arg, m in mutations(raw[1], tier, rnd, tier == "thorough"):
+                for fam, arg, m in mutations(raw[1], tier, rnd, tier == "thorough" and not (slow and len(raw[1]) > 300),
+                                             9 if (slow and len(raw[1]) > 300) else 1):
                     try_([gen(idxs[0]), [kind(fam, arg), idxs[1], d]], [raw[0], m], "%s:%s:rec1" % (fam, arg))
             # arrangements in the window
             k = len(raw)
@@ -586,11 +589,13 @@ def conn_level(cfg, op, tier):
 
 def _work(job):
     kind, cfg, op, tier = job
+    t0 = env.real_time()
     try:
         if kind == "record":
             ev, info = record_level(cfg, tier)
         else:
             ev, info = conn_level(cfg, op, tier)
+        info["dur"] = round(env.real_time() - t0, 1)
         return ev, info
     except BaseException:
         import traceback
@@ -621,6 +626,8 @@ def run(tier):
             jobs.append(("conn", c, op, tier))
     with Pool(16) as pool:
         results = pool.map(_work, jobs, chunksize=1)
+    rep.notes["slowest_jobs"] = [[i.get("dur"), i.get("kind"), i["cfg"].get("name"), i["cfg"].get("ver"), bool(i["cfg"].get("longpad")), i.get("op")]
+                                 for e, i in sorted(results, key=lambda r: -(r[1].get("dur") or 0))[:8]]
     traces, infos = [], []
     for ev, info in results:
         if ev is None:
